@@ -24,7 +24,7 @@ META = {
     "fraction notes interpolate k+1 / n of this fraction's own event and lot; running sums and the in-lot sold percentage are accumulated over the intended sets; "
     "RP2Decimal becomes float only inside _fill_cell; the Legend receives the same method table and from/to dates the computation used; the balances shown are the replayed "
     "flows (C07's obligations restated); no cell shows a value left over from an earlier row.",
-    "restated": "the balances shown are the replayed flows (C07.a-d); the numbering tables behind the 'k/n' labels are per copy and cut at the copy's to-date (C10.c); average price = sum of cost / sum of amount up to the to-date",
+    "restated": "the balances shown are the replayed flows (C07.a-d); the numbering tables behind the 'k/n' labels are per copy and cut at the copy's to-date (C10.c); average price = sum of cost / sum of amount up to the to-date; the yearly lines shown are the sums of the fractions up to the to-date, cut on the event's own date, no order-sensitive grouping (C06.b, c, d, g)",
     "not_decided": "the bytes ezodf serialises, styles, LibreOffice rendering, correctness of list.sort.",
     "assumptions": ["ezodf writes the value it is handed into the addressed cell", "float(Decimal) is the correctly rounded double"],
 }
